@@ -52,7 +52,11 @@ MCRich6Tiny == {<<1, 0, 0, 2, 0, 0, 0, 3>>, <<1, 2, 3, 4, 5, 6, 7, 8>>}
 MCMacs == {Zeros(6), [i \in 1..6 |-> 255], <<1, 128, 194, 0, 0, 14>>, <<1, 128, 194, 0, 0, 15>>, <<1, 128, 194, 0, 0, 16>>,
            <<2, 0, 0, 0, 0, 1>>, <<10, 11, 12, 13, 14, 15>>, <<18, 52, 86, 120, 154, 188>>,
            <<1, 0, 94, 0, 0, 1>>, <<0, 16, 250, 194, 191, 213>>, <<3, 128, 194, 0, 0, 0>>,
-           <<1, 128, 194, 0, 1, 0>>}
+           <<1, 128, 194, 0, 1, 0>>,
+           \* octets that read as text: five / six colons, dashes, "1:2:3:", hexadecimal digits - a 6-byte
+           \* binary address is an address whatever its bytes spell
+           <<58, 58, 58, 58, 58, 1>>, <<58, 58, 58, 58, 58, 58>>, <<45, 45, 45, 45, 45, 7>>, <<49, 58, 50, 58, 51, 58>>,
+           <<97, 97, 98, 98, 99, 99>>}
 MCRichMacs == {<<10, 11, 12, 13, 14, 15>>, <<18, 52, 86, 120, 154, 188>>, Zeros(6), <<1, 2, 3, 4, 5, 171>>,
                <<160, 0, 11, 192, 13, 14>>}
 MCMacsTiny == {Zeros(6), <<1, 128, 194, 0, 0, 14>>}
